@@ -101,7 +101,8 @@ LDFLAGS = ["-L" + CONDA + "/lib", "-lfmt", "-lcjson", "-lboost_system", "-fopenm
 
 
 # per-harness build options (name -> kwargs of build_harness)
-HARNESS_OPTS = {}
+# per-harness build options (setup.sh builds every harness with these)
+HARNESS_OPTS = {"adprog": dict(link_lib=False, header_only_deps=["opm/material/densead", "opm/material/common"])}
 
 
 def _mtime(p):
